@@ -79,6 +79,34 @@ OPT_TAIL = '''
     return cols, rows
 '''
 
+# since the repair of F-C15b: a derived dimension is computed from the unscaled size
+OPT_TAIL_ASPECT = '''
+    cell_width, cell_height = self.get_cell_size()
+    local_scale = scale or self._config.scale
+    effective_scale = self._config.global_scale * (local_scale if local_scale is not None else 1.0)
+    orig_width, orig_height = width, height
+    width *= effective_scale
+    height *= effective_scale
+    cols_auto_computed = cols is None
+    rows_auto_computed = rows is None
+    if cols is None and rows is None:
+        cols = math.ceil(width / cell_width)
+        rows = math.ceil(height / cell_height)
+    elif cols is None:
+        cols = math.ceil(rows * cell_height * orig_width / (orig_height * cell_width))
+    elif rows is None:
+        rows = math.ceil(cols * cell_width * orig_height / (orig_width * cell_height))
+    if cols_auto_computed and cols > max_cols:
+        cols = max_cols
+        rows = math.ceil(cols * cell_width * orig_height / (orig_width * cell_height))
+    if rows_auto_computed and rows > max_rows:
+        rows = max_rows
+        cols = math.ceil(rows * cell_height * orig_width / (orig_height * cell_width))
+    cols = max({final_min_cols}, min(cols, max_cols))
+    rows = max({final_min_rows}, min(rows, max_rows))
+    return cols, rows
+'''
+
 CELL_SRC = '''
 def get_cell_size(self) -> Tuple[int, int]:
     if self._config.cell_size == "auto":
@@ -177,7 +205,8 @@ def _gen_cellsize(repo, out):
     expect(len(ints) == 4 and ints[0] == 0 and ints[1] == 0, f"get_optimal_cols_and_rows: integer literals changed: {ints}")
     c2 = {"final_min_cols": ints[2], "final_min_rows": ints[3]}
     nstmt = len(body_nodoc(fn))
-    tail = OPT_TAIL.format(**c2)
+    aspect = "orig_width" in ast.unparse(fn)
+    tail = (OPT_TAIL_ASPECT if aspect else OPT_TAIL).format(**c2)
     if nstmt == len(ast.parse(OPT_HEAD.format() + tail).body[0].body):
         caps = False
         _same_function(fn, OPT_HEAD.format() + tail, "get_optimal_cols_and_rows (explicit dimensions not capped)")
@@ -210,4 +239,6 @@ def _gen_cellsize(repo, out):
     t += f"Definition default_cell_w : Z := {dcs.elts[0].value}.\nDefinition default_cell_h : Z := {dcs.elts[1].value}.\n"
     t += "(* does get_optimal_cols_and_rows cap an explicitly given dimension at its limit before using it? *)\n"
     t += f"Definition caps_explicit : bool := {'true' if caps else 'false'}.\n"
+    t += "(* is a dimension that is derived from the other one computed from the UNSCALED image size? *)\n"
+    t += f"Definition aspect_unscaled : bool := {'true' if aspect else 'false'}.\n"
     out.add("CellSizeGen.v", t)
